@@ -1,6 +1,7 @@
 package ssasym
 
 import (
+	"bytes"
 	"encoding/json"
 	"fmt"
 	"io"
@@ -20,30 +21,34 @@ type FuncInfo struct {
 
 // Result is result.json.
 type Result struct {
-	Obligations      []*Obligation `json:"obligations"`
-	FunctionsEncoded []FuncInfo    `json:"functions_encoded"`
-	StubsUsed        []string      `json:"stubs_used"`
-	WallS            float64       `json:"wall_s"`
-	LoadS            float64       `json:"load_s"`
-	ReplayBuildS     float64       `json:"replay_build_s"`
-	Solver           string        `json:"solver"`
-	Package          string        `json:"package"`
-	Harnesses        []HarnessInfo `json:"harnesses"`
-	EngineErrors     []string      `json:"engine_errors,omitempty"`
-	ExitCode         int           `json:"exit_code"`
+	Obligations       []*Obligation     `json:"obligations"`
+	FunctionsEncoded  []FuncInfo        `json:"functions_encoded"`
+	StubsUsed         []string          `json:"stubs_used"`
+	WallS             float64           `json:"wall_s"`
+	LoadS             float64           `json:"load_s"`
+	ReplayBuildS      float64           `json:"replay_build_s"`
+	Solver            string            `json:"solver"`
+	Package           string            `json:"package"`
+	Harnesses         []HarnessInfo     `json:"harnesses"`
+	ReplacementsUsed  []string          `json:"replacements_used"`
+	Replacements      []ReplacementInfo `json:"replacements_declared,omitempty"`
+	GoroutinesIgnored []string          `json:"goroutines_ignored,omitempty"`
+	EngineErrors      []string          `json:"engine_errors,omitempty"`
+	ExitCode          int               `json:"exit_code"`
 }
 
 // HarnessInfo summarises the exploration of one harness function.
 type HarnessInfo struct {
-	Name    string  `json:"name"`
-	Paths   int     `json:"paths"`
-	Dropped int     `json:"dropped_paths"`
-	Sat     int     `json:"sat"`
-	Unsat   int     `json:"unsat"`
-	Unknown int     `json:"unknown"`
-	SolverS float64 `json:"solver_s"`
-	WallS   float64 `json:"wall_s"`
-	Terms   int     `json:"terms"`
+	Name         string   `json:"name"`
+	Paths        int      `json:"paths"`
+	Dropped      int      `json:"dropped_paths"`
+	Sat          int      `json:"sat"`
+	Unsat        int      `json:"unsat"`
+	Unknown      int      `json:"unknown"`
+	SolverS      float64  `json:"solver_s"`
+	WallS        float64  `json:"wall_s"`
+	Terms        int      `json:"terms"`
+	Replacements []string `json:"replacements_used,omitempty"`
 }
 
 // Engine ties a loaded program to solvers and options.
@@ -56,6 +61,8 @@ type Engine struct {
 	one *Solver
 	Out io.Writer
 	rep *Replayer
+
+	replLoaded bool
 }
 
 func NewEngine(L *Loaded, cfg *Config, out io.Writer) *Engine {
@@ -73,7 +80,8 @@ func NewEngine(L *Loaded, cfg *Config, out io.Writer) *Engine {
 	}
 	P := NewPool()
 	e := &Engine{L: L, Cfg: cfg, P: P, Out: out}
-	e.In = &Interp{P: P, Prog: L.Prog, maxSteps: cfg.MaxSteps, Entered: map[*ssa.Function]bool{}, StubHit: map[string]bool{}}
+	e.In = &Interp{P: P, Prog: L.Prog, maxSteps: cfg.MaxSteps, Entered: map[*ssa.Function]bool{}, StubHit: map[string]bool{},
+		HarnessPkg: L.Pkg, GoIgnored: map[string]bool{}, ReplUsed: map[string]bool{}, replActive: map[*ssa.Function]int{}}
 	e.inc = NewSolver(cfg.Solver, cfg.TimeoutMS)
 	e.one = NewSolver(cfg.Solver, cfg.TimeoutMS)
 	if cfg.SMTLog != "" {
@@ -133,6 +141,13 @@ func (e *Engine) harnessFn(name string) (*ssa.Function, error) {
 func (e *Engine) Run(funcs []string) *Result {
 	t0 := time.Now()
 	res := &Result{Solver: e.Cfg.Solver, Package: e.L.PkgPath}
+	if err := e.loadReplacements(); err != nil {
+		res.EngineErrors = append(res.EngineErrors, "replacement table: "+err.Error())
+		res.Obligations = []*Obligation{}
+		res.ReplacementsUsed = []string{}
+		res.ExitCode = 2
+		return res
+	}
 	var explorers []*Explorer
 	for _, name := range funcs {
 		fn, err := e.harnessFn(name)
@@ -152,7 +167,8 @@ func (e *Engine) Run(funcs []string) *Result {
 			ex.Explore(fn, scanIDs(e.L.Prog, fn))
 		}()
 		hi := HarnessInfo{Name: name, Paths: ex.paths, Dropped: ex.dropped, Sat: ex.total.Sat, Unsat: ex.total.Unsat,
-			Unknown: ex.total.Unknown, SolverS: ex.total.Seconds, WallS: time.Since(th).Seconds(), Terms: e.P.Size()}
+			Unknown: ex.total.Unknown, SolverS: ex.total.Seconds, WallS: time.Since(th).Seconds(), Terms: e.P.Size(),
+			Replacements: sortedKeys(ex.replAll)}
 		res.Harnesses = append(res.Harnesses, hi)
 		e.logf("harness %-40s paths=%d dropped=%d queries sat/unsat/unknown=%d/%d/%d solver=%.2fs wall=%.2fs",
 			name, hi.Paths, hi.Dropped, hi.Sat, hi.Unsat, hi.Unknown, hi.SolverS, hi.WallS)
@@ -185,6 +201,12 @@ func (e *Engine) Run(funcs []string) *Result {
 	}
 	sort.Slice(res.FunctionsEncoded, func(i, j int) bool { return res.FunctionsEncoded[i].Name < res.FunctionsEncoded[j].Name })
 	res.StubsUsed = sortedKeys(e.In.StubHit)
+	res.ReplacementsUsed = sortedKeys(e.In.ReplUsed)
+	if res.ReplacementsUsed == nil {
+		res.ReplacementsUsed = []string{}
+	}
+	res.Replacements = e.replacementInfo()
+	res.GoroutinesIgnored = sortedKeys(e.In.GoIgnored)
 	if res.Obligations == nil {
 		res.Obligations = []*Obligation{}
 	}
@@ -218,11 +240,14 @@ func exitCode(res *Result) int {
 
 // WriteResult stores result.json.
 func WriteResult(path string, res *Result) error {
-	b, err := json.MarshalIndent(res, "", "  ")
-	if err != nil {
+	var buf bytes.Buffer
+	enc := json.NewEncoder(&buf)
+	enc.SetEscapeHTML(false) // "=>" in replacements_used stays readable
+	enc.SetIndent("", "  ")
+	if err := enc.Encode(res); err != nil {
 		return err
 	}
-	return os.WriteFile(path, b, 0o644)
+	return os.WriteFile(path, buf.Bytes(), 0o644)
 }
 
 // Print writes the human-readable summary.
@@ -244,8 +269,19 @@ func (e *Engine) Print(res *Result) {
 	for _, er := range res.EngineErrors {
 		e.logf("ENGINE-ERROR %s", er)
 	}
-	e.logf("functions encoded: %d, stubs used: %d, wall %.2fs (replay build %.2fs), exit %d",
-		len(res.FunctionsEncoded), len(res.StubsUsed), res.WallS, res.ReplayBuildS, res.ExitCode)
+	for _, r := range res.ReplacementsUsed {
+		e.logf("CONTRACT %s", r)
+	}
+	for _, r := range res.Replacements {
+		if !r.Used {
+			e.logf("note: replacement %q (%s) was declared but never used", r.Key, r.Replacement)
+		}
+	}
+	for _, g := range res.GoroutinesIgnored {
+		e.logf("GOROUTINE-IGNORED %s", g)
+	}
+	e.logf("functions encoded: %d, stubs used: %d, contracts used: %d, wall %.2fs (replay build %.2fs), exit %d",
+		len(res.FunctionsEncoded), len(res.StubsUsed), len(res.ReplacementsUsed), res.WallS, res.ReplayBuildS, res.ExitCode)
 }
 
 // ---------- differential self-test ----------
@@ -269,6 +305,9 @@ func (e *Engine) SelfTest(funcs []string, n int, seed int64) ([]SelfTestReport, 
 	if err != nil {
 		return nil, err
 	}
+	// harness contracts are NOT applied in concrete mode: the native side runs the real functions,
+	// so the comparison is only meaningful against the real functions (a harness whose target is
+	// not interpretable without its contracts shows up as not-encodable runs)
 	var reports []SelfTestReport
 	for hi, name := range funcs {
 		fn, err := e.harnessFn(name)
